@@ -1,0 +1,337 @@
+//go:build verif
+
+package secs1
+
+// verif_hooks_transport.go — add-only tracing hook for the external verification harness (build tag
+// `verif`). Nothing here is compiled into a normal build. VerifNewTraced builds a SECS-I connection
+// exactly as New does, with the production transport wrapped so that the harness can record, in one
+// total order, the events of the generation / hand-off layer that are otherwise invisible from outside:
+// ArmStart, Start, TCPUp, CommitSelected, TCPDown, Stop, every Write call with its result, every block
+// handed to the per-generation inbound sink with what the assembler did with it, and every frame
+// delivered to the core. The wrapped code paths are the production ones: the tracer only brackets them.
+
+import (
+	"bytes"
+	"context"
+	"errors"
+	"net"
+	"runtime"
+	"strconv"
+	"sync"
+
+	"github.com/arloliu/go-secs/v2/hsms"
+)
+
+// VerifTraceEv is one recorded event. Kind is one of
+//
+//	arm | start-begin | start-end | up | sel | down | stop-begin | stop-end |
+//	write-begin | write-end | sink-begin | sink-end | deliver-begin | deliver-end
+type VerifTraceEv struct {
+	Stamp int64  `json:"st"`
+	Kind  string `json:"k"`
+	Gen   int    `json:"g"`             // generation index = number of ArmStart calls so far - 1 (-1 = unknown)
+	ID    int    `json:"id,omitempty"`  // write-begin / write-end: number of the Write call
+	SB    uint32 `json:"sb,omitempty"`  // write-*: system bytes of the frame; sink-*: of the block
+	SF    uint16 `json:"sf,omitempty"`  // write-*: stream (without the W-bit) << 8 | function
+	Ctrl  bool   `json:"ctl,omitempty"` // write-*: an HSMS control frame (dropped by the transport)
+	Body  []byte `json:"body,omitempty"`
+	NBlk  int    `json:"nblk,omitempty"` // write-begin: blocks the frame splits into
+	Res   string `json:"res,omitempty"`  // write-end / start-end / stop-end: ok closed sendfailed ctx ioerr timeout other
+	BlkNo int    `json:"bn,omitempty"`   // sink-*: block number
+	EBit  bool   `json:"e,omitempty"`    // sink-*: E-bit
+	BSend uint64 `json:"bs,omitempty"`   // write-end: BlockSendCount at that moment
+	Eff   string `json:"eff,omitempty"`  // sink-end / deliver-begin: D (dropped) X (partial discarded, block dropped) F (starts) C (continues)
+}
+
+// VerifTrace collects the events. Stamp must be a strictly increasing counter shared with the harness.
+type VerifTrace struct {
+	Stamp func() int64
+
+	mu      sync.Mutex
+	evs     []VerifTraceEv
+	arm     int
+	connGen map[net.Conn]int
+	lastUp  int
+	writes  int
+	sinkOf  map[int64]*verifSink // goroutine id -> the sink call in progress on it
+}
+
+type verifSink struct {
+	gen    int
+	open   bool // shadow of assembler.open, maintained from the counters
+	hdr    [10]byte
+	before [6]uint64
+}
+
+func (tr *VerifTrace) add(ev VerifTraceEv) {
+	tr.mu.Lock()
+	ev.Stamp = tr.Stamp()
+	tr.evs = append(tr.evs, ev)
+	tr.mu.Unlock()
+}
+
+// Events returns a copy of what was recorded so far.
+func (tr *VerifTrace) Events() []VerifTraceEv {
+	tr.mu.Lock()
+	defer tr.mu.Unlock()
+
+	return append([]VerifTraceEv(nil), tr.evs...)
+}
+
+// CurGen is the index of the generation armed last (-1 before the first ArmStart).
+func (tr *VerifTrace) CurGen() int {
+	tr.mu.Lock()
+	defer tr.mu.Unlock()
+
+	return tr.arm - 1
+}
+
+func (tr *VerifTrace) genOf(conn net.Conn) int {
+	tr.mu.Lock()
+	defer tr.mu.Unlock()
+	if g, ok := tr.connGen[conn]; ok {
+		return g
+	}
+
+	return -1
+}
+
+func verifGoID() int64 {
+	var buf [64]byte
+	n := runtime.Stack(buf[:], false)
+	f := bytes.Fields(buf[:n])
+	if len(f) < 2 {
+		return 0
+	}
+	id, _ := strconv.ParseInt(string(f[1]), 10, 64)
+
+	return id
+}
+
+func verifWriteClass(err error) string {
+	switch {
+	case err == nil:
+		return "ok"
+	case errors.Is(err, hsms.ErrConnClosed):
+		return "closed"
+	case errors.Is(err, ErrSendFailed):
+		return "sendfailed"
+	case errors.Is(err, context.Canceled), errors.Is(err, context.DeadlineExceeded):
+		return "ctx"
+	case errors.Is(err, hsms.ErrCloseTimeout):
+		return "timeout"
+	case errors.Is(err, errStartSealed):
+		return "sealed"
+	default:
+		return "ioerr"
+	}
+}
+
+type verifTracedTransport struct {
+	*transport
+	tr *VerifTrace
+	rt *verifTracedRT
+}
+
+type verifTracedRT struct {
+	hsms.TransportRuntime
+	tt *verifTracedTransport
+}
+
+// VerifNewTraced is New with the transport wrapped by the tracer (see the file comment).
+func VerifNewTraced(cfg Config, tr *VerifTrace) (Connection, error) {
+	if cfg.active && cfg.dial == nil {
+		return nil, errors.New("secs1: active Config has a nil dialer; always construct Config via NewConfig")
+	}
+	tr.connGen = map[net.Conn]int{}
+	tr.sinkOf = map[int64]*verifSink{}
+	tr.lastUp = -1
+
+	t := newTransport(cfg)
+	tt := &verifTracedTransport{transport: t, tr: tr}
+
+	// bracket the production per-generation sink (whatever newTransport installed)
+	orig := t.newSink
+	t.newSink = func() func(block) error {
+		inner := orig()
+		tr.mu.Lock()
+		s := &verifSink{gen: tr.lastUp}
+		tr.mu.Unlock()
+
+		return func(b block) error {
+			gid := verifGoID()
+			s.hdr = b.header
+			s.before = tt.sinkCounters()
+			tr.mu.Lock()
+			tr.sinkOf[gid] = s
+			tr.mu.Unlock()
+			tr.add(VerifTraceEv{Kind: "sink-begin", Gen: s.gen, SB: verifSB(b.header[6:10]), BlkNo: int(b.blockNumber()), EBit: b.eBit()})
+			err := inner(b)
+			eff := s.effect(tt.sinkCounters(), b)
+			tr.mu.Lock()
+			delete(tr.sinkOf, gid)
+			tr.mu.Unlock()
+			tr.add(VerifTraceEv{Kind: "sink-end", Gen: s.gen, SB: verifSB(b.header[6:10]), BlkNo: int(b.blockNumber()), EBit: b.eBit(), Eff: eff})
+
+			return err
+		}
+	}
+
+	core, err := hsms.NewConnection(&cfg.ConnectionConfig, tt)
+	if err != nil {
+		return nil, err
+	}
+
+	return &connection{Connection: core, deviceID: cfg.deviceID, metrics: t.metrics}, nil
+}
+
+func verifSB(b []byte) uint32 {
+	return uint32(b[0])<<24 | uint32(b[1])<<16 | uint32(b[2])<<8 | uint32(b[3])
+}
+
+// sinkCounters: dupDrop, dirDrop, deviceIDMismatch, partialTimeout, blockNumberMismatch, invalidFirstBlock
+func (tt *verifTracedTransport) sinkCounters() [6]uint64 {
+	m := tt.metrics
+
+	return [6]uint64{m.BlockDupDropCount(), m.BlockDirDropCount(), m.DeviceIDMismatchCount(), m.PartialTimeoutCount(),
+		m.BlockNumberMismatchCount(), m.InvalidFirstBlockCount()}
+}
+
+// effect classifies what assembler.accept did with b from the counter deltas and the block header, and keeps the shadow
+// `open` flag: D dropped, X an open partial was discarded and the block dropped, F the block starts a message (after discarding
+// an open partial, if any), C it continues the open partial. The E-bit says whether F / C complete the message.
+func (s *verifSink) effect(after [6]uint64, b block) string {
+	d := func(k int) bool { return after[k] != s.before[k] }
+	if d(0) || d(1) || d(2) {
+		return "D"
+	}
+	discarded := d(3) || d(4)
+	num := b.blockNumber()
+	validFirst := num == 1 || (num == 0 && b.eBit())
+	switch {
+	case discarded && !validFirst:
+		s.open = false
+
+		return "X"
+	case discarded || !s.open:
+		if !validFirst {
+			return "D"
+		}
+		s.open = !b.eBit()
+
+		return "F"
+	default:
+		s.open = !b.eBit()
+
+		return "C"
+	}
+}
+
+// effectSoFar is effect evaluated in the middle of the accept call (at the delivery): it does not move the shadow.
+func (s *verifSink) effectSoFar(now [6]uint64) string {
+	if now[3] != s.before[3] || now[4] != s.before[4] || !s.open {
+		return "F"
+	}
+
+	return "C"
+}
+
+func (tt *verifTracedTransport) ArmStart() {
+	tt.tr.mu.Lock()
+	tt.tr.arm++
+	g := tt.tr.arm - 1
+	tt.tr.mu.Unlock()
+	tt.tr.add(VerifTraceEv{Kind: "arm", Gen: g})
+	tt.transport.ArmStart()
+}
+
+func (tt *verifTracedTransport) Start(ctx context.Context, rt hsms.TransportRuntime) error {
+	if tt.rt == nil {
+		tt.rt = &verifTracedRT{TransportRuntime: rt, tt: tt}
+	}
+	g := tt.tr.CurGen()
+	tt.tr.add(VerifTraceEv{Kind: "start-begin", Gen: g})
+	err := tt.transport.Start(ctx, tt.rt)
+	tt.tr.add(VerifTraceEv{Kind: "start-end", Gen: g, Res: verifWriteClass(err)})
+
+	return err
+}
+
+func (tt *verifTracedTransport) Stop(ctx context.Context) error {
+	g := tt.tr.CurGen()
+	tt.tr.add(VerifTraceEv{Kind: "stop-begin", Gen: g})
+	err := tt.transport.Stop(ctx)
+	tt.tr.add(VerifTraceEv{Kind: "stop-end", Gen: g, Res: verifWriteClass(err)})
+
+	return err
+}
+
+func (tt *verifTracedTransport) Write(ctx context.Context, conn net.Conn, bufs net.Buffers) error {
+	ev := VerifTraceEv{Kind: "write-begin", Gen: tt.tr.genOf(conn)}
+	if len(bufs) > 0 && len(bufs[0]) >= 14 {
+		h := bufs[0][4:14]
+		ev.SB = verifSB(h[6:10])
+		ev.SF = uint16(h[2]&0x7f)<<8 | uint16(h[3])
+		ev.Ctrl = h[5] != 0
+		n := 0
+		for _, b := range bufs[1:] {
+			n += len(b)
+			if len(ev.Body) < 16 {
+				ev.Body = append(ev.Body, b[:min(len(b), 16-len(ev.Body))]...)
+			}
+		}
+		ev.NBlk = max(1, (n+maxBlockBodySize-1)/maxBlockBodySize)
+	}
+	tt.tr.mu.Lock()
+	tt.tr.writes++
+	ev.ID = tt.tr.writes
+	tt.tr.mu.Unlock()
+	tt.tr.add(ev)
+	err := tt.transport.Write(ctx, conn, bufs)
+	ev.Kind, ev.Res, ev.Body, ev.BSend = "write-end", verifWriteClass(err), nil, tt.metrics.BlockSendCount()
+	tt.tr.add(ev)
+
+	return err
+}
+
+func (r *verifTracedRT) TCPUp(conn net.Conn) {
+	tr := r.tt.tr
+	tr.mu.Lock()
+	g := tr.arm - 1
+	tr.connGen[conn] = g
+	tr.lastUp = g
+	tr.mu.Unlock()
+	tr.add(VerifTraceEv{Kind: "up", Gen: g})
+	r.TransportRuntime.TCPUp(conn)
+}
+
+func (r *verifTracedRT) CommitSelected() bool {
+	ok := r.TransportRuntime.CommitSelected()
+	r.tt.tr.add(VerifTraceEv{Kind: "sel", Gen: r.tt.tr.CurGen()})
+
+	return ok
+}
+
+func (r *verifTracedRT) TCPDown(cause error) {
+	r.tt.tr.add(VerifTraceEv{Kind: "down", Gen: r.tt.tr.CurGen()})
+	r.TransportRuntime.TCPDown(cause)
+}
+
+func (r *verifTracedRT) DeliverOwnedFrame(frame []byte) error {
+	tr := r.tt.tr
+	gid := verifGoID()
+	tr.mu.Lock()
+	s := tr.sinkOf[gid]
+	tr.mu.Unlock()
+	ev := VerifTraceEv{Kind: "deliver-begin", Gen: -1}
+	if s != nil {
+		ev.Gen, ev.SB, ev.BlkNo, ev.EBit = s.gen, verifSB(s.hdr[6:10]), int(s.hdr[4]&0x7f)<<8|int(s.hdr[5]), s.hdr[4]&0x80 != 0
+		ev.Eff = s.effectSoFar(r.tt.sinkCounters())
+	}
+	tr.add(ev)
+	err := r.TransportRuntime.DeliverOwnedFrame(frame)
+	ev.Kind = "deliver-end"
+	tr.add(ev)
+
+	return err
+}
